@@ -765,7 +765,8 @@ pub fn combine(zn: &ZmodN, xs: &[Uint], factors: &[(i64, u64)]) -> (Uint, Uint) 
 pub fn try_factor(n: &Uint, a: Uint, b: Uint) -> Option<(Uint, Uint)> {
     // Note that when a = ±b we can still obtain a factor
     // if a and b actually share a factor with n.
-    if a + b != *n {
+    // If a + b is 0 or n, the gcd below is the trivial divisor n.
+    if a + b != *n && !(a + b).is_zero() {
         let gcd = Integer::gcd(&Int::from_bits(*n), &Int::from_bits(a + b));
         if gcd > Int::one() {
             let p = gcd.to_bits();
